@@ -36,3 +36,19 @@ SPEC["theorems"] = ["useful_total", "useful_sound", "useful_complete", "C14_exha
 
 def run(tier, seed):
     return svlib.run_spec(SPEC, tier, seed)
+
+MANIFEST = dict(
+    claimed=True,
+    technique="Lean 4 theorem: soundness AND completeness of the implemented Maranget usefulness algorithm (incl. or-patterns, u8 range "
+              "condensing) on an explicit typed fragment + differential correspondence with the real compiler's verdicts and run-time arm selection",
+    text="proof: useful_total / useful_sound / useful_complete, C14_exhaustive_exact, C14_reachable_exact, first_match_runs hold for ALL "
+         "pattern matrices of the fragment Pat.hasTy (suffixed u8 literals, struct patterns listing every field in order, or-patterns at any "
+         "depth) of the model of the code AFTER fix: 50f6a54; outside the fragment the code deviates and each deviation has a decide-proved "
+         "witness and a known finding. Tied to the compiler on 1000 (quick) / 12000 (thorough) random matrices: verdict kind, reported "
+         "witness, unreachable warnings by span, and the arm taken on the FuelVM for every value; property predicate = brute-force oracle "
+         "over all values.",
+    note="partial: witness-level soundness is false of the code (witness_join_unsound), warnings exact only without interior catch-all arms "
+         "(C14_warnings_exact_partial). Trusted: hand transliteration of the analysis files, harness generator and witness-text parser. "
+         "Upstream defects: 1 fix: (Σ construction: false rejection, accepted non-exhaustive match, 2 ICEs), 8 known findings incl. a "
+         "run-time miscompile of `true | _`.",
+)
